@@ -91,6 +91,18 @@ def sensPhysCells (N : Num K) (S : Special K) (trip : K → K) (scale : K) (dims
     List (List (SensPhys K)) :=
   (lattice (counts dims)).map (cellAt (sensPhysDim N S trip scale) dims)
 
+/-- `Sensitivity._labels`, one job: `"_".join(f"{path}_{prior.value_for(unit)}")` over the perturb priors in id
+order - the pairs (name, value) the label is made of (the text of a float is Python's `repr`, applied by the
+harness); also the row of `_physical_values` and of `results.csv` -/
+def sensLabelParts (cfg : Cfg) (namesById namesByAttr : List String) (cell : List (SensPhys K)) :
+    List (String × Outcome K) :=
+  (headers cfg namesById namesByAttr).zip (cell.map (·.centre))
+
+/-- labels of all jobs in job order -/
+def sensLabels (N : Num K) (S : Special K) (trip : K → K) (scale : K) (cfg : Cfg)
+    (namesById namesByAttr : List String) (dims : List (Dim K)) : List (List (String × Outcome K)) :=
+  (sensPhysCells N S trip scale dims).map (sensLabelParts cfg namesById namesByAttr)
+
 end
 
 /-- the quantile round trips the real code was observed to perform (keyed by the bits of `u`);
